@@ -36,6 +36,11 @@ pub fn scenario(seed: u64, idx: u64) -> Scenario {
     rng.shuffle(&mut tasks);
     sc.workers = size;
     sc.pool = Some(PoolSc { size, submitters, tasks });
+    // simulated clock on half of the runs: time read by the pool jumps ahead by up to two minutes
+    // now and then (a job "waited" that long in the queue)
+    if rng.chance(1, 2) {
+        sc.yields = vec!["clock".into()];
+    }
     sc
 }
 
@@ -53,6 +58,9 @@ pub fn flood(seed: u64, idx: u64) -> Scenario {
     }
     sc.workers = size;
     sc.pool = Some(PoolSc { size, submitters: rng.range(1, 2), tasks });
+    if rng.chance(1, 2) {
+        sc.yields = vec!["clock".into()];
+    }
     sc
 }
 
